@@ -9,8 +9,9 @@
       config.Backend.CreateURL   upstream URL                              (C15/Rewrite.v)
 
     The model is parametric in the repairs that were applied to the tree as fix:
-    commits (C08-F2 a779db8, C08-F3 72ba5d4, C15-F1 41fd1db); [fixes] says which of
-    them the modelled tree contains, [repaired] is the tree as it is now. *)
+    commits (C08-F2 a779db8, C08-F3 72ba5d4, C08-F5 6d0a3af, C08-F6 d3f6cd7, C15-F1 41fd1db,
+    C15-F6 5270ed2; f446e16: the query of X-Forwarded-Uri is taken as sent); [fixes] says
+    which of them the modelled tree contains, [repaired] is the tree as it is now. *)
 From HV Require Import Base.Prelude Base.GoUrl.
 From HV Require Export C15.Rewrite.
 
@@ -357,7 +358,7 @@ Definition serve_envoy (fx : fixes) (rules : list rule) (dflt : bool) (host raw 
     mode behind a proxy: the proxy asks heimdall at the path [own] and hands the
     original request target over in the header).  The header value is parsed with
     url.Parse; modelled for values [raw]?[query] whose path starts with one '/' and
-    has no '#'.  If it does not parse (malformed escape) the code AS IT
+    has no '#'.  If it does not parse (malformed escape) the code
     before d3f6cd7 silently fell back to the target of the proxy's own request (finding
     C08-F6); [fx6] = with that fix: the value is taken as it is, like the Envoy entry
     does.  The query is taken as sent (since f446e16). *)
